@@ -209,7 +209,7 @@ def main(argv=None):
     if a.replay:
         ok, res, sigs = engine.replay_file(prop, a.replay)
         if a.trace:
-            print(json.dumps(res, indent=1, default=jdefault)[:20000])
+            print(json.dumps(res, indent=1, default=jdefault)[:int(os.environ.get("VERIF_TRACE_CHARS", "20000"))])
         if ok:
             with open(a.replay) as f:
                 doc = json.load(f)
